@@ -54,3 +54,12 @@ Theorem C07_lifecycle : forall P bk supply vault MP t0 sw sd ops,
      status_res (k_status (ms_mkt x)) /\ b_result b = result_of (ms_mkt x) b).
 Proof. exact lifecycle_over_histories. Qed.
 Print Assumptions C07_lifecycle.
+
+From Sge Require Import Model.Orderbook Gen.kernels Proofs.GenKernels.
+(* the status tests of the life cycle in the model ARE the Go methods of x/market/types/market.go (generated on every run) *)
+Theorem C07_kernels_generated : forall mk,
+  K_Market_IsUpdateAllowed (gm_of mk) = status_ai (k_status mk) /\
+  K_Market_IsResolveAllowed (gm_of mk) = status_ai (k_status mk) /\
+  K_Market_IsResolved (gm_of mk) = status_resolved (k_status mk).
+Proof. intros. split; [reflexivity|]. split; [reflexivity|apply gen_market_resolved]. Qed.
+Print Assumptions C07_kernels_generated.
